@@ -69,6 +69,18 @@ def scripts(rnd, quick, F):
         elif k < 0.65:
             w = [rnd.choice([192, 219, 220, 0, 128, 255, rnd.randint(0, 255)]) for _ in range(rnd.randint(0, 60))]
         sc.append(rx(tr, mem16, cap, w, verdict=rnd.choice([0, 0, 5, 11]), data=[rnd.randint(0, 255) for _ in range(30)]))
+    # the sink the replies go to refuses a call: whatever the caller is told, the ledger stays exact
+    for tr in (0, 1):
+        for mem16 in (0, 1):
+            ws = 2 if mem16 else 1
+            for cap in (16, 24, 64):
+                for n in (0, 1, 4, 30):
+                    for write in (0, 1):
+                        o = request(tr, write, mem16, 7, 0x20, n, [1] * (n * ws) if write else [])
+                        for bits in (16, 48, 17):
+                            sc.append(rx(tr, mem16, cap, wire(tr, o), allocfail=bits, verdict=0, data=[5] * 8))
+                for junk in ([], [1, 2, 3]):
+                    sc.append(rx(tr, mem16, cap, wire(tr, junk), allocfail=16))
     # TCP length prefixes that are not minimal (legal varints), up to the ten-octet limit and beyond it, and prefixes announcing
     # 2^28 octets and more: the unit is read like any other / ends inside the frame / is not a varint at all
     for mem16 in (0, 1):
